@@ -36,6 +36,9 @@ FromIsar(m, inMessage) ==
       [] m.dim = "varsize"  -> << NM(m.nm \o "_len", "plain", Int(4), 0, ""),
                                   IF inMessage THEN NM(m.nm, "ext", m.t, 0, m.nm \o "_len")
                                   ELSE NM(m.nm, "limext", m.t, m.n, m.nm \o "_len") >>
+      [] m.dim = "varsize2" -> << NM(m.nm \o "_len", "plain", Int(4), 0, ""),
+                                  IF inMessage THEN NM(m.nm, "ext", m.t, 0, m.nm \o "_len")
+                                  ELSE NM(m.nm, "limext", m.t, m.n * m.aux, m.nm \o "_len") >>
       \* named and typed counter (u8)
       [] m.dim = "varnamed" -> << NM("cnt_" \o m.nm, "plain", Int(1), 0, ""), NM(m.nm, "ext", m.t, 0, "cnt_" \o m.nm) >>
       \* sized by an existing field
@@ -89,7 +92,7 @@ fvars == <<ims, inMessage, script, result, outcome>>
 Forms(nm, t) ==
     {IM(nm, t, FALSE, "none", 0, 0), IM(nm, t, TRUE, "none", 0, 0), IM(nm, t, FALSE, "size", 3, 0),
      IM(nm, t, FALSE, "size2", 2, 2), IM(nm, t, FALSE, "var", 0, 0), IM(nm, t, FALSE, "varsize", 2, 0),
-     IM(nm, t, FALSE, "varnamed", 0, 0)}
+     IM(nm, t, FALSE, "varnamed", 0, 0), IM(nm, t, FALSE, "varsize2", 3, 2)}
 
 Scripts ==
     {<<>>, << [op |-> "absent", a |-> "", b |-> "", c |-> "", t |-> Int(1), n |-> 0] >>}
